@@ -49,8 +49,10 @@ pub fn gen_algorithm(r: &mut Rng, w: &mut World, allow_ksp: bool) {
         }
     };
     w.algorithm = if allow_ksp && r.chance(0.25) {
-        let k = r.range(1, 3);
-        let mut a = json!({"type": if r.chance(0.5) { "ksp_single_via" } else { "yens" }, "k": k, "underlying": base(r)});
+        // Yen's algorithm with k >= 2 is a recorded finding (no-progress loop): keep it rare so runs stay fast
+        let yens = r.chance(0.3);
+        let k = if yens && !r.chance(0.15) { 1 } else { r.range(1, 3) };
+        let mut a = json!({"type": if yens { "yens" } else { "ksp_single_via" }, "k": k, "underlying": base(r)});
         if r.chance(0.4) {
             a["similarity"] = json!({"type": "edge_id_cosine_similarity", "threshold": many_digits(r, 0.3, 0.95)});
         }
@@ -225,6 +227,12 @@ pub fn gen_query(r: &mut Rng, w: &World, pc: &PluginChoice, qid: usize, failing_
                 1 if !pc.rtree => {
                     let n = r.range(1, 3);
                     g.insert("destination_vertex".into(), Value::Array((0..n).map(|_| json!(r.below(nv))).collect()));
+                }
+                1 => {
+                    // coordinates as a grid axis: one option may lie outside the matching tolerance, so a
+                    // plugin that runs after the expansion fails for one generated query only
+                    let v = r.below(nv) as usize;
+                    g.insert("origin_x".into(), json!([w.coords[v].0, if r.chance(0.5) { -100.0 } else { w.coords[(v + 1) % nv as usize].0 }]));
                 }
                 _ => {
                     let n = r.range(1, 2);
